@@ -29,6 +29,10 @@ var filterConds = [][2]string{
 	{"exists(@ ? (@.a == 1))", "exists($ ? (@.a == 1))"},
 	{"@.a ? (@ > 1) == 2", "$.a ? (@ > 1) == 2"},
 	{"@.a.double() > 1", "$.a.double() > 1"},
+	// a nested filter that ends in a non-suppressible error which is unknown
+	// absorbs (the listed finding of C11), then @ again
+	{"(exists(@.a ? (@ == $missing))) is unknown && @.b == 1", "(exists($.a ? (@ == $missing))) is unknown && $.b == 1"},
+	{"(@.a ? (@ > $missing) > 0) is unknown || @.b > 1", "($.a ? (@ > $missing) > 0) is unknown || $.b > 1"},
 }
 
 var filterPrefixes = []string{"$", "$[*]", "$.a", "$.*", "$.**{1}"}
@@ -116,7 +120,7 @@ func C10_Conjunction() {
 	np, nc := 2, 6
 	if nd.Thorough() {
 		// (the last condition can raise a non-suppressible error and is excluded)
-		np, nc = len(filterPrefixes), len(filterConds)-1
+		np, nc = len(filterPrefixes), len(filterConds)-3
 	}
 	P := filterPrefixes[nd.Choice(np)]
 	c1 := filterConds[nd.Choice(nc)][0]
